@@ -17,6 +17,13 @@ const (
 	zzLoadOrStoreWithFunc
 	zzReplaceWithFunc
 	zzLength
+	zzStoreWithFunc
+	zzLoadWithFunc
+	zzDeleteWithFunc
+	zzLoadAndDeleteWithFunc
+	zzLoadAndDeleteAll
+	zzCopyData
+	zzRange2
 	zzNumOps
 )
 
@@ -28,6 +35,9 @@ type zzOp struct {
 	ok         bool // returned flag
 	seen       int  // value a callback observed
 	seenOK     bool
+	snapP      [2]bool // whole-map results (CopyData, LoadAndDeleteAll, Range2): presence and value of keys 0, 1
+	snapV      [2]int
+	snapN      int
 	start, end int
 }
 
@@ -85,8 +95,53 @@ func (s *zzSpec) apply(o *zzOp) bool {
 			n++
 		}
 		return o.res == n
+	case zzStoreWithFunc:
+		s.present[k], s.val[k] = true, o.val
+		return true
+	case zzLoadWithFunc:
+		if s.present[k] {
+			return o.ok && o.seenOK && o.seen == s.val[k] && o.res == s.val[k]
+		}
+		return !o.ok && !o.seenOK
+	case zzDeleteWithFunc:
+		m := (s.present[k] && o.seenOK && o.seen == s.val[k]) || (!s.present[k] && !o.seenOK)
+		s.present[k] = false
+		return m
+	case zzLoadAndDeleteWithFunc:
+		m := (s.present[k] && o.ok && o.seenOK && o.seen == s.val[k] && o.res == s.val[k]) || (!s.present[k] && !o.ok && !o.seenOK)
+		s.present[k] = false
+		return m
+	case zzLoadAndDeleteAll, zzCopyData, zzRange2:
+		n := 0
+		m := true
+		for i := 0; i < 2; i++ {
+			if s.present[i] {
+				n++
+				if !o.snapP[i] || o.snapV[i] != s.val[i] {
+					m = false
+				}
+			} else if o.snapP[i] {
+				m = false
+			}
+		}
+		if o.snapN != n {
+			m = false
+		}
+		if o.kind == zzLoadAndDeleteAll {
+			s.present[0], s.present[1] = false, false
+		}
+		return m
 	}
 	return false
+}
+
+func (o *zzOp) snapshot(d map[uint64]int) {
+	o.snapN = len(d)
+	for i := uint64(0); i < 2; i++ {
+		if v, ok := d[i]; ok {
+			o.snapP[i], o.snapV[i] = true, v
+		}
+	}
 }
 
 var zzClock int
@@ -113,6 +168,22 @@ func zzRun(m *Map[uint64, int], o *zzOp) {
 		o.res, o.ok = m.ReplaceWithFunc(o.key, func(old int, loaded bool) (int, bool) { o.seen, o.seenOK = old, loaded; return o.val, false })
 	case zzLength:
 		o.res = m.Length()
+	case zzStoreWithFunc:
+		m.StoreWithFunc(o.key, func() int { return o.val })
+	case zzLoadWithFunc:
+		o.res, o.ok = m.LoadWithFunc(o.key, func(v int) int { o.seen, o.seenOK = v, true; return v })
+	case zzDeleteWithFunc:
+		m.DeleteWithFunc(o.key, func(v int) { o.seen, o.seenOK = v, true })
+	case zzLoadAndDeleteWithFunc:
+		o.res, o.ok = m.LoadAndDeleteWithFunc(o.key, func(v int) int { o.seen, o.seenOK = v, true; return v })
+	case zzLoadAndDeleteAll:
+		o.snapshot(m.LoadAndDeleteAll())
+	case zzCopyData:
+		o.snapshot(m.CopyData())
+	case zzRange2:
+		d := map[uint64]int{}
+		m.Range2(func(k uint64, v int) bool { d[k] = v; return true })
+		o.snapshot(d)
 	}
 	zzClock++
 	o.end = zzClock
